@@ -5,6 +5,7 @@
   `EclDefaultMaterial`.
 -/
 import OpmVerif.Proofs.Satfunc3
+import OpmVerif.Proofs.HystFull
 import OpmVerif.Model.SatDeck
 
 set_option linter.unusedSectionVars false
@@ -485,33 +486,27 @@ theorem defaultKrn_gas_oil (k : Consts K) (swco : K) (krnOW krwGO : K → K) (sw
   have : sg ≠ 0 := ne_of_gt (lt_of_lt_of_le hk h)
   field_simp
 
-/-- `updateHysteresis` keeps both two-phase states consistent and their reversal saturations
-are running minima — the per-cell hysteresis state is the template-level state of C15's
-`hyst_invariant`, fed with `1 - So` (oil-water) and `1 - Swl - Sg` (gas-oil). -/
+/-- `updateHysteresis`: the reversal saturations of both two-phase objects are running minima —
+`krnSwMdc_` of `1 - So` (oil-water) and `1 - Swl - Sg` (gas-oil) — resp. running maxima
+(`krwSwMdc_` of `Sw` and `So`), and with capillary-pressure hysteresis `pcSwMdc_` is the running
+minimum of `Sw` resp. `So`; for every relperm / capillary-pressure model of EHYSTR (the per-cell
+state is the complete object of `Model/HystFull.lean`). -/
 theorem updateCell_mdc (c : Cell K) (st : CellState K) (s : Sat K) (h : c.ow.enabled = true) :
-    (updateCell c st s).ow.c.mdc = min st.ow.c.mdc (1 - clamp01 s.so) ∧
-    (updateCell c st s).go.c.mdc = min st.go.c.mdc (1 - c.swl - clamp01 s.sg) ∧
-    (updateCell c st s).ow.k.mdc = min st.ow.k.mdc (1 - clamp01 s.so) ∧
-    (updateCell c st s).go.k.mdc = min st.go.k.mdc (1 - c.swl - clamp01 s.sg) := by
+    (updateCell c st s).ow.krnMdc = min st.ow.krnMdc (1 - clamp01 s.so) ∧
+    (updateCell c st s).go.krnMdc = min st.go.krnMdc (1 - c.swl - clamp01 s.sg) ∧
+    (updateCell c st s).ow.krwMdc = max st.ow.krwMdc (clamp01 s.sw) ∧
+    (updateCell c st s).go.krwMdc = max st.go.krwMdc (clamp01 s.so) ∧
+    (c.ow.cfg.pcModel = 0 → (updateCell c st s).ow.pcMdc = min st.ow.pcMdc (clamp01 s.sw)) ∧
+    (c.go.cfg.pcModel = 0 → (updateCell c st s).go.pcMdc = min st.go.pcMdc (clamp01 s.so)) := by
   unfold updateCell
   simp only [h, not_true_eq_false, if_false, HystLaw.update]
-  refine ⟨?_, ?_, ?_, ?_⟩
-  · unfold Hyst.update
-    by_cases hlt : 1 - clamp01 s.so < st.ow.c.mdc
-    · simp [hlt, Hyst.refresh, min_eq_right (le_of_lt hlt)]
-    · simp [hlt, min_eq_left (not_lt.mp hlt)]
-  · unfold Hyst.update
-    by_cases hlt : 1 - c.swl - clamp01 s.sg < st.go.c.mdc
-    · simp [hlt, Hyst.refresh, min_eq_right (le_of_lt hlt)]
-    · simp [hlt, min_eq_left (not_lt.mp hlt)]
-  · unfold Killough.update
-    by_cases hlt : 1 - clamp01 s.so < st.ow.k.mdc
-    · simp [hlt, Killough.refresh, min_eq_right (le_of_lt hlt)]
-    · simp [hlt, min_eq_left (not_lt.mp hlt)]
-  · unfold Killough.update
-    by_cases hlt : 1 - c.swl - clamp01 s.sg < st.go.k.mdc
-    · simp [hlt, Killough.refresh, min_eq_right (le_of_lt hlt)]
-    · simp [hlt, min_eq_left (not_lt.mp hlt)]
+  refine ⟨?_, ?_, ?_, ?_, ?_, ?_⟩
+  · rw [HystFull.update_krnMdc]
+  · rw [HystFull.update_krnMdc]
+  · rw [HystFull.update_krwMdc]
+  · rw [HystFull.update_krwMdc]
+  · intro h0; rw [HystFull.update_pcMdc, if_pos h0]
+  · intro h0; rw [HystFull.update_pcMdc, if_pos h0]
 
 theorem clamp01_range (x : K) : 0 ≤ clamp01 x ∧ clamp01 x ≤ 1 := by
   unfold clamp01
